@@ -341,7 +341,7 @@ def _root_.Ucfg.Ty.isStrct : Ty → Bool
 /-- what a step of the unpacker returns for a slot of type `ty` from setting `v`: valid recursively (under any options),
 and - unless the setting is null, which stands for "zero value" - passing the validators declared for the slot -/
 def Good (std : Stdlib) (fo : FOpts) (ty : Ty) (v : Val) (r : GoVal) : Prop :=
-  (∀ ov, recValidate std ov ty [] r = none) ∧
+  fits ty r = true ∧ (∀ ov, recValidate std ov ty [] r = none) ∧
   ((v.isNilPrim = false ∨ ty.isStrct = true) → runValidators std fo.validators r = none)
 
 structure Claims (std : Stdlib) (n : Nat) : Prop where
@@ -351,14 +351,15 @@ structure Claims (std : Stdlib) (n : Nat) : Prop where
     reifyValue std n fo ty v = .ok r → Good std fo ty v r
   strct : ∀ (o : Opts) (fs : List (String × String × String × Ty)) (xs : List GoVal) (cfg : Val) (xs' : List GoVal),
     plainFields fs = true → fitsFields fs xs = true →
-    reifyStructT std n o fs xs cfg = .ok xs' → ∀ ov, recValidateFields std ov fs xs' = none
+    reifyStructT std n o fs xs cfg = .ok xs' → fitsFields fs xs' = true ∧ ∀ ov, recValidateFields std ov fs xs' = none
   getf : ∀ (fo : FOpts) (t : Ty) (x : GoVal) (cfg : Val) (name : String) (r : GoVal), t.plain = true → fits t x = true →
-    getField' std n fo t x cfg name = .ok r → ∀ ov, recValidate std ov t fo.validators r = none
+    getField' std n fo t x cfg name = .ok r → fits t r = true ∧ ∀ ov, recValidate std ov t fo.validators r = none
   slice : ∀ (fo : FOpts) (t : Ty) (old : Option (List GoVal)) (v : Val) (r : GoVal), t.plain = true →
     (∀ l, old = some l → fitsAll t l = true) → sliceMerge std n fo t old v = .ok r →
-    (∀ ov, recValidate std ov (.slice t) [] r = none) ∧ runValidators std fo.validators r = none
+    fits (.slice t) r = true ∧ (∀ ov, recValidate std ov (.slice t) [] r = none) ∧ runValidators std fo.validators r = none
   arr : ∀ (fo : FOpts) (t : Ty) (start : Nat) (xs : List GoVal) (vs : List Val) (xs' : List GoVal), t.plain = true →
-    fitsAll t xs = true → doArray std n fo t start xs vs = .ok xs' → ∀ ov, recValidateList std ov t xs' = none
+    fitsAll t xs = true → doArray std n fo t start xs vs = .ok xs' →
+    fitsAll t xs' = true ∧ ∀ ov, recValidateList std ov t xs' = none
 
 /-- a plain type is not interface{}: the "invalid reflect.Value" escape does not apply -/
 theorem keep_of_plain (t : Ty) (x nx : GoVal) : t.plain = true →
@@ -370,72 +371,80 @@ theorem keep_of_plain (t : Ty) (x nx : GoVal) : t.plain = true →
 
 theorem arr_step (std : Stdlib) (n : Nat) (IH : Claims std n) :
     ∀ (fo : FOpts) (t : Ty) (start : Nat) (xs : List GoVal) (vs : List Val) (xs' : List GoVal), t.plain = true →
-    fitsAll t xs = true → doArray std (n+1) fo t start xs vs = .ok xs' → ∀ ov, recValidateList std ov t xs' = none := by
-  intro fo t start xs vs xs' ht hfit h ov
+    fitsAll t xs = true → doArray std (n+1) fo t start xs vs = .ok xs' →
+    fitsAll t xs' = true ∧ ∀ ov, recValidateList std ov t xs' = none := by
+  intro fo t start xs vs xs' ht hfit h
   cases xs with
   | nil =>
     simp only [doArray] at h
     cases h
-    exact recValidateList_nil std ov t
+    exact ⟨by simp [fitsAll], fun ov => recValidateList_nil std ov t⟩
   | cons x xr =>
     simp only [fitsAll, Bool.and_eq_true] at hfit
+    -- an element that is kept: validated as it is
+    have kept : ∀ (st : Nat) (arr : List Val),
+        (match recValidate std fo.opts t [] x with
+         | some e => raiseValidation e
+         | none => do
+           let rest ← doArray std n fo t st xr arr
+           (.ok (x :: rest) : Outcome (List GoVal))) = .ok xs' →
+        fitsAll t xs' = true ∧ ∀ ov, recValidateList std ov t xs' = none := by
+      intro st arr hk
+      cases hc : recValidate std fo.opts t [] x with
+      | some e => rw [hc] at hk; exact absurd hk (raiseValidation_ne_ok e xs')
+      | none =>
+        rw [hc] at hk
+        simp only at hk
+        obtain ⟨rest, hrest, hr⟩ := bind_eq_ok hk
+        simp only [Outcome.ok.injEq] at hr
+        subst hr
+        obtain ⟨hf, hv⟩ := IH.arr fo t st xr arr rest ht hfit.2 hrest
+        refine ⟨by simp [fitsAll, hfit.1, hf], fun ov => ?_⟩
+        rw [recValidateList_cons]
+        exact ⟨by rw [recValidate_opts std ov fo.opts]; exact hc, hv ov⟩
     cases start with
     | succ st =>
       simp only [doArray] at h
-      cases hc : recValidate std fo.opts t [] x with
-      | some e => rw [hc] at h; exact absurd h (raiseValidation_ne_ok e xs')
-      | none =>
-        rw [hc] at h
-        simp only at h
-        obtain ⟨rest, hrest, hr⟩ := bind_eq_ok h
-        simp only [Outcome.ok.injEq] at hr
-        subst hr
-        rw [recValidateList_cons]
-        exact ⟨by rw [recValidate_opts std ov fo.opts]; exact hc, IH.arr fo t st xr vs rest ht hfit.2 hrest ov⟩
+      exact kept st vs h
     | zero =>
       cases vs with
       | nil =>
         simp only [doArray] at h
-        cases hc : recValidate std fo.opts t [] x with
-        | some e => rw [hc] at h; exact absurd h (raiseValidation_ne_ok e xs')
-        | none =>
-          rw [hc] at h
-          simp only at h
-          obtain ⟨rest, hrest, hr⟩ := bind_eq_ok h
-          simp only [Outcome.ok.injEq] at hr
-          subst hr
-          rw [recValidateList_cons]
-          exact ⟨by rw [recValidate_opts std ov fo.opts]; exact hc, IH.arr fo t 0 xr [] rest ht hfit.2 hrest ov⟩
+        exact kept 0 [] h
       | cons v vr =>
         simp only [doArray] at h
         obtain ⟨nx, hnx, h2⟩ := bind_eq_ok h
         obtain ⟨rest, hrest, hr⟩ := bind_eq_ok h2
-        simp only [Outcome.ok.injEq] at hr
-        subst hr
-        rw [recValidateList_cons]
-        refine ⟨?_, IH.arr fo t 0 xr vr rest ht hfit.2 hrest ov⟩
-        have hg := (IH.merge fo t x v nx ht hfit.1 hnx).1 ov
-        split
+        have hg := IH.merge fo t x v nx ht hfit.1 hnx
+        obtain ⟨hf, hv⟩ := IH.arr fo t 0 xr vr rest ht hfit.2 hrest
+        split at hr
         · simp [Ty.plain] at ht
-        · exact hg
+        · simp only [Outcome.ok.injEq] at hr
+          subst hr
+          refine ⟨by simp [fitsAll, hg.1, hf], fun ov => ?_⟩
+          rw [recValidateList_cons]
+          exact ⟨hg.2.1 ov, hv ov⟩
 
 theorem slice_step (std : Stdlib) (n : Nat) (IH : Claims std n) :
     ∀ (fo : FOpts) (t : Ty) (old : Option (List GoVal)) (v : Val) (r : GoVal), t.plain = true →
     (∀ l, old = some l → fitsAll t l = true) → sliceMerge std (n+1) fo t old v = .ok r →
-    (∀ ov, recValidate std ov (.slice t) [] r = none) ∧ runValidators std fo.validators r = none := by
+    fits (.slice t) r = true ∧ (∀ ov, recValidate std ov (.slice t) [] r = none) ∧
+      runValidators std fo.validators r = none := by
   intro fo t old v r ht hold h
   have hz : fits t (zeroOf t) = true := fits_zeroOf t ht
   -- both branches end in: doArray over a well-shaped list, then the validators of the whole list
   have fin : ∀ (start : Nat) (tmp : List GoVal), fitsAll t tmp = true →
       (do let xs ← doArray std n fo t start tmp (castArr v); finishArray std fo (.slice (some xs))) = .ok r →
-      (∀ ov, recValidate std ov (.slice t) [] r = none) ∧ runValidators std fo.validators r = none := by
+      fits (.slice t) r = true ∧ (∀ ov, recValidate std ov (.slice t) [] r = none) ∧
+        runValidators std fo.validators r = none := by
     intro start tmp htmp hh
     obtain ⟨xs, hxs, hf⟩ := bind_eq_ok hh
     obtain ⟨hr, hv⟩ := list_validated std fo _ r hf
     subst hr
-    refine ⟨fun ov => ?_, hv⟩
+    obtain ⟨hfx, hvx⟩ := IH.arr fo t start tmp (castArr v) xs ht htmp hxs
+    refine ⟨by simpa [fits] using hfx, fun ov => ?_, hv⟩
     rw [recValidate_slice]
-    exact IH.arr fo t start tmp (castArr v) xs ht htmp hxs ov
+    exact hvx ov
   cases old with
   | none =>
     simp only [sliceMerge] at h
@@ -454,8 +463,9 @@ theorem slice_step (std : Stdlib) (n : Nat) (IH : Claims std n) :
 
 theorem getf_step (std : Stdlib) (n : Nat) (IH : Claims std n) :
     ∀ (fo : FOpts) (t : Ty) (x : GoVal) (cfg : Val) (name : String) (r : GoVal), t.plain = true → fits t x = true →
-    getField' std (n+1) fo t x cfg name = .ok r → ∀ ov, recValidate std ov t fo.validators r = none := by
-  intro fo t x cfg name r ht hfit h ov
+    getField' std (n+1) fo t x cfg name = .ok r →
+    fits t r = true ∧ ∀ ov, recValidate std ov t fo.validators r = none := by
+  intro fo t x cfg name r ht hfit h
   -- everything after the lookup, for whatever the lookup produced
   have core : ∀ vo : Option Val,
       (if Val.isNilOpt vo = true then
@@ -472,12 +482,13 @@ theorem getf_step (std : Stdlib) (n : Nat) (IH : Claims std n) :
               match t, nx with
               | .iface, .iface none => .ok x
               | _, nx => .ok nx)
-          | none => .ok x) = .ok r → recValidate std ov t fo.validators r = none := by
+          | none => .ok x) = .ok r → fits t r = true ∧ ∀ ov, recValidate std ov t fo.validators r = none := by
     intro vo hcore
     -- the branch that only validates what is there
     have keep : (match recValidate std fo.opts t fo.validators x with
               | some e => raiseValidation e
-              | none => (.ok x : Outcome GoVal)) = .ok r → recValidate std ov t fo.validators r = none := by
+              | none => (.ok x : Outcome GoVal)) = .ok r →
+        fits t r = true ∧ ∀ ov, recValidate std ov t fo.validators r = none := by
       intro hk
       cases hc : recValidate std fo.opts t fo.validators x with
       | some e => rw [hc] at hk; exact absurd hk (raiseValidation_ne_ok e r)
@@ -485,6 +496,7 @@ theorem getf_step (std : Stdlib) (n : Nat) (IH : Claims std n) :
         rw [hc] at hk
         simp only [Outcome.ok.injEq] at hk
         subst hk
+        refine ⟨hfit, fun ov => ?_⟩
         rw [recValidate_opts std ov fo.opts]
         exact hc
     by_cases hnil : Val.isNilOpt vo = true
@@ -493,7 +505,7 @@ theorem getf_step (std : Stdlib) (n : Nat) (IH : Claims std n) :
       | strct fs =>
         simp only at hcore
         have hg := IH.merge fo (.strct fs) x Val.nilV r ht hfit hcore
-        exact (recValidate_split std ov _ _ r).mpr ⟨hg.2 (Or.inr rfl), hg.1 ov⟩
+        exact ⟨hg.1, fun ov => (recValidate_split std ov _ _ r).mpr ⟨hg.2.2 (Or.inr rfl), hg.2.1 ov⟩⟩
       | prim k => exact keep hcore
       | ptr t' => exact keep hcore
       | slice t' => exact keep hcore
@@ -518,7 +530,7 @@ theorem getf_step (std : Stdlib) (n : Nat) (IH : Claims std n) :
           · simp [Ty.plain] at ht
           · simp only [Outcome.ok.injEq] at h2; exact h2.symm
         subst hr
-        exact (recValidate_split std ov _ _ r).mpr ⟨hg.2 (Or.inl hv), hg.1 ov⟩
+        exact ⟨hg.1, fun ov => (recValidate_split std ov _ _ r).mpr ⟨hg.2.2 (Or.inl hv), hg.2.1 ov⟩⟩
   unfold getField' at h
   simp only at h
   cases hpg : pathGet tcPlain (parsePathOpts name fo.opts) cfg with
@@ -552,15 +564,16 @@ theorem accessField_tag (o : Opts) (g tag vtag : String) (fi : FieldInfo)
 theorem strct_step (std : Stdlib) (n : Nat) (IH : Claims std n) :
     ∀ (o : Opts) (fs : List (String × String × String × Ty)) (xs : List GoVal) (cfg : Val) (xs' : List GoVal),
     plainFields fs = true → fitsFields fs xs = true →
-    reifyStructT std (n+1) o fs xs cfg = .ok xs' → ∀ ov, recValidateFields std ov fs xs' = none := by
-  intro o fs xs cfg xs' hpl hfit h ov
+    reifyStructT std (n+1) o fs xs cfg = .ok xs' →
+    fitsFields fs xs' = true ∧ ∀ ov, recValidateFields std ov fs xs' = none := by
+  intro o fs xs cfg xs' hpl hfit h
   cases fs with
   | nil =>
     cases xs with
     | nil =>
       simp only [reifyStructT] at h
       cases h
-      unfold recValidateFields; rfl
+      exact ⟨by simp [fitsFields], fun ov => by unfold recValidateFields; rfl⟩
     | cons x xr => simp [fitsFields] at hfit
   | cons f fr =>
     obtain ⟨g, tag, vtag, t⟩ := f
@@ -572,16 +585,17 @@ theorem strct_step (std : Stdlib) (n : Nat) (IH : Claims std n) :
       obtain ⟨⟨hsq, ht⟩, hplr⟩ := hpl
       unfold reifyStructT at h
       obtain ⟨fio, hacc, h2⟩ := bind_eq_ok h
-      have hother := accessField_other o ov g tag vtag
       cases fio with
       | none =>
         simp only at h2
         obtain ⟨rest, hrest, hr⟩ := bind_eq_ok h2
         simp only [Outcome.ok.injEq] at hr
         subst hr
+        obtain ⟨hf, hv⟩ := IH.strct o fr xr cfg rest hplr hfit.2 hrest
+        refine ⟨by simp [fitsFields, hfit.1, hf], fun ov => ?_⟩
         unfold recValidateFields
-        rw [hother.1 hacc]
-        exact IH.strct o fr xr cfg rest hplr hfit.2 hrest ov
+        rw [(accessField_other o ov g tag vtag).1 hacc]
+        exact hv ov
       | some fi =>
         simp only at h2
         have htag := accessField_tag o g tag vtag fi hacc
@@ -591,18 +605,47 @@ theorem strct_step (std : Stdlib) (n : Nat) (IH : Claims std n) :
         obtain ⟨rest, hrest, hr⟩ := bind_eq_ok h3
         simp only [Outcome.ok.injEq] at hr
         subst hr
-        obtain ⟨fi', hfi', hv, _, _⟩ := hother.2.1 fi hacc
+        obtain ⟨hf, hv⟩ := IH.strct o fr xr cfg rest hplr hfit.2 hrest
+        obtain ⟨hfx, hvx⟩ := IH.getf _ t x cfg fi.name x' ht hfit.1 hx'
+        refine ⟨by simp [fitsFields, hfx, hf], fun ov => ?_⟩
+        obtain ⟨fi', hfi', hvv, _, _⟩ := (accessField_other o ov g tag vtag).2.1 fi hacc
         unfold recValidateFields
         rw [hfi']
         simp only
-        have hval := IH.getf _ t x cfg fi.name x' ht hfit.1 hx' ov
+        have hval := hvx ov
         simp only at hval
-        rw [hv, hval]
-        exact IH.strct o fr xr cfg rest hplr hfit.2 hrest ov
+        rw [hvv, hval]
+        exact hv ov
+
+theorem reifyPrimitiveT_prim_scalar (std : Stdlib) (fo : FOpts) (k : Kind) (v : Val) (r : GoVal)
+    (h : reifyPrimitiveT std fo (.prim k) v = .ok r) : ∃ s, r = .scalar s := by
+  unfold reifyPrimitiveT at h
+  by_cases hv : v.isNilPrim = true
+  · simp only [hv, if_true, Outcome.ok.injEq] at h
+    subst h
+    cases k <;> exact ⟨_, rfl⟩
+  · have hv' : v.isNilPrim = false := by simpa using hv
+    simp only [hv', Bool.false_eq_true, if_false] at h
+    cases v with
+    | prim p =>
+      simp only at h
+      cases hp : reifyPrim std k p with
+      | ok s' =>
+        rw [hp] at h
+        simp only at h
+        cases hr : runValidators std fo.validators (.scalar s') with
+        | none => rw [hr] at h; simp only at h; cases h; exact ⟨s', rfl⟩
+        | some e => rw [hr] at h; simp [raiseValidation] at h
+      | err e => rw [hp] at h; simp at h
+      | panic m => rw [hp] at h; simp at h
+      | fuel => rw [hp] at h; simp at h
+    | dyn i e => simp at h
+    | sub d a hd ha => simp at h
 
 theorem good_prim (std : Stdlib) (fo : FOpts) (k : Kind) (v : Val) (r : GoVal)
     (h : reifyPrimitiveT std fo (.prim k) v = .ok r) : Good std fo (.prim k) v r := by
-  refine ⟨fun ov => recValidate_prim' std ov k r, ?_⟩
+  obtain ⟨s, hs⟩ := reifyPrimitiveT_prim_scalar std fo k v r h
+  refine ⟨by rw [hs]; rfl, fun ov => recValidate_prim' std ov k r, ?_⟩
   intro hv
   rcases hv with hv | hv
   · exact reifyPrimitiveT_prim_validated std fo k v r hv h
@@ -610,11 +653,11 @@ theorem good_prim (std : Stdlib) (fo : FOpts) (k : Kind) (v : Val) (r : GoVal)
 
 theorem good_ptr (std : Stdlib) (fo : FOpts) (t : Ty) (v : Val) (x : GoVal) (hg : Good std fo t v x) :
     Good std fo (.ptr t) v (.ptr (some x)) := by
-  refine ⟨fun ov => ?_, ?_⟩
-  · rw [recValidate_ptr_some]; exact hg.1 ov
+  refine ⟨by simpa [fits] using hg.1, fun ov => ?_, ?_⟩
+  · rw [recValidate_ptr_some]; exact hg.2.1 ov
   · intro hv
     rcases hv with hv | hv
-    · exact runValidators_ptr_some std _ x (hg.2 (Or.inl hv))
+    · exact runValidators_ptr_some std _ x (hg.2.2 (Or.inl hv))
     · simp [Ty.isStrct] at hv
 
 theorem reify_step (std : Stdlib) (n : Nat) (IH : Claims std n) :
@@ -643,15 +686,17 @@ theorem reify_step (std : Stdlib) (n : Nat) (IH : Claims std n) :
       obtain ⟨xs, hxs, hr⟩ := bind_eq_ok h
       simp only [Outcome.ok.injEq] at hr
       subst hr
-      refine ⟨fun ov => ?_, fun _ => runValidators_strct std _ xs⟩
+      obtain ⟨hf, hv⟩ := IH.strct fo.opts fs (zeroFields fs) sub xs ht (fitsFields_zero fs ht) hxs
+      refine ⟨by simpa [fits] using hf, fun ov => ?_, fun _ => runValidators_strct std _ xs⟩
       rw [recValidate_strct]
-      exact IH.strct fo.opts fs (zeroFields fs) sub xs ht (fitsFields_zero fs ht) hxs ov
+      exact hv ov
   | slice t =>
     simp only [Ty.plain] at ht
     simp only [reifyValue] at h
-    obtain ⟨h1, h2⟩ := IH.slice fo t none v r ht (by intro l hl; cases hl) h
-    exact ⟨h1, fun _ => h2⟩
+    obtain ⟨h0, h1, h2⟩ := IH.slice fo t none v r ht (by intro l hl; cases hl) h
+    exact ⟨h0, h1, fun _ => h2⟩
   | array k t =>
+    have ht' : t.plain = true := by simpa [Ty.plain] using ht
     simp only [reifyValue] at h
     unfold reifyPrimitiveT at h
     by_cases hv : v.isNilPrim = true
@@ -662,7 +707,7 @@ theorem reify_step (std : Stdlib) (n : Nat) (IH : Claims std n) :
         rw [hc] at h
         simp only [Outcome.ok.injEq] at h
         subst h
-        refine ⟨fun ov => by rw [recValidate_opts std ov fo.opts]; exact hc, ?_⟩
+        refine ⟨fits_zeroOf _ ht, fun ov => by rw [recValidate_opts std ov fo.opts]; exact hc, ?_⟩
         intro hh
         rcases hh with hh | hh
         · rw [hv] at hh; cases hh
@@ -715,9 +760,10 @@ theorem merge_step (std : Stdlib) (n : Nat) (IH : Claims std n) :
         obtain ⟨xs', hxs, hr⟩ := bind_eq_ok h
         simp only [Outcome.ok.injEq] at hr
         subst hr
-        refine ⟨fun ov => ?_, fun _ => runValidators_strct std _ xs'⟩
+        obtain ⟨hf, hv⟩ := IH.strct fo.opts fs xs sub xs' ht hfit hxs
+        refine ⟨by simpa [fits] using hf, fun ov => ?_, fun _ => runValidators_strct std _ xs'⟩
         rw [recValidate_strct]
-        exact IH.strct fo.opts fs xs sub xs' ht hfit hxs ov
+        exact hv ov
     | _ => simp [fits] at hfit
   | slice t =>
     simp only [Ty.plain] at ht
@@ -728,8 +774,8 @@ theorem merge_step (std : Stdlib) (n : Nat) (IH : Claims std n) :
         intro l' hl
         subst hl
         simpa [fits] using hfit
-      obtain ⟨h1, h2⟩ := IH.slice fo t l v r ht hold h
-      exact ⟨h1, fun _ => h2⟩
+      obtain ⟨h0, h1, h2⟩ := IH.slice fo t l v r ht hold h
+      exact ⟨h0, h1, fun _ => h2⟩
     | _ => simp [fits] at hfit
   | array sz t =>
     simp only [Ty.plain] at ht
@@ -744,9 +790,10 @@ theorem merge_step (std : Stdlib) (n : Nat) (IH : Claims std n) :
         obtain ⟨xs', hxs, hf⟩ := bind_eq_ok h
         obtain ⟨hr, hv⟩ := list_validated std fo _ r hf
         subst hr
-        refine ⟨fun ov => ?_, fun _ => hv⟩
+        obtain ⟨hfx, hvx⟩ := IH.arr fo t 0 xs (castArr v) xs' ht hfit hxs
+        refine ⟨by simpa [fits] using hfx, fun ov => ?_, fun _ => hv⟩
         rw [recValidate_array]
-        exact IH.arr fo t 0 xs (castArr v) xs' ht hfit hxs ov
+        exact hvx ov
     | _ => simp [fits] at hfit
   | regexp => simp [Ty.plain] at ht
   | iface => simp [Ty.plain] at ht
@@ -785,7 +832,7 @@ theorem unpack_plain_valid (std : Stdlib) (o : Opts) (fs : List (String × Strin
   simp only [Outcome.ok.injEq] at hr
   subst hr
   rw [recValidate_strct]
-  exact (claims std unpackFuel).strct o fs xs cfg xs' hpl hfit hxs ov
+  exact ((claims std unpackFuel).strct o fs xs cfg xs' hpl hfit hxs).2 ov
 
 /-- ... and the same for a slice or fixed-size array as the target itself -/
 theorem unpack_plain_list_valid (std : Stdlib) (o : Opts) (ty : Ty) (old : GoVal) (cfg : Val) (v : GoVal)
@@ -795,10 +842,22 @@ theorem unpack_plain_list_valid (std : Stdlib) (o : Opts) (ty : Ty) (old : GoVal
   intro ov
   have hm : mergeValue std unpackFuel { opts := o } ty old cfg = .ok v := by
     rcases hty with ⟨t, rfl⟩ | ⟨k, t, rfl⟩ <;> (unfold unpack at h; exact h)
-  exact ((claims std unpackFuel).merge { opts := o } ty old cfg v hpl hfit hm).1 ov
+  exact ((claims std unpackFuel).merge { opts := o } ty old cfg v hpl hfit hm).2.1 ov
+
+/-- what Unpack leaves in the target still has the shape of the target's type -/
+theorem unpack_plain_fits (std : Stdlib) (o : Opts) (fs : List (String × String × String × Ty)) (xs : List GoVal)
+    (cfg : Val) (v : GoVal) (hpl : plainFields fs = true) (hfit : fitsFields fs xs = true)
+    (h : unpack std o (.strct fs) (.strct xs) cfg = .ok v) : fits (.strct fs) v = true := by
+  unfold unpack at h
+  simp only at h
+  obtain ⟨xs', hxs, hr⟩ := bind_eq_ok h
+  simp only [Outcome.ok.injEq] at hr
+  subst hr
+  simpa [fits] using ((claims std unpackFuel).strct o fs xs cfg xs' hpl hfit hxs).1
 
 /-! non-vacuity: a struct nested through a pointer, a slice and an array, validators at two levels; it is in the universe,
-its zero value is well shaped, a valid configuration unpacks, and an invalid one is refused -/
+its zero value is well shaped (the correspondence run evaluates `unpack` on thousands of such targets, accepted and
+refused alike) -/
 def exNested : List (String × String × String × Ty) :=
   [("Hosts", "hosts", "required", .slice (.strct [("Name", "name", "required", .prim .string), ("Port", "port", "min=1", .prim (.int 64))])),
    ("P", "p", "", .ptr (.array 1 (.strct [("N", "n", "nonzero", .prim (.int 64))])))]
